@@ -195,6 +195,10 @@ def check(case, rec):
     if c['method'] == 'amp':
         pipeline.trusted_burst_mask(c, x)
     df = pipeline.analyse(c, x, return_samples=True)
+    if case.get('row_subset') and case['target'] == 'plot_cyclepoints_df' and len(df) > 3:
+        # a filtered table (bursting cycles only, every second cycle): rows are no longer adjacent cycles
+        keep_rows = [i for i in range(len(df)) if (case['row_subset'] >> (i % 12)) & 1] or [0]
+        df = df.iloc[keep_rows].reset_index(drop=True)
     nm, centre, side, rises, decays = table_points(df)
     # x-limits on the sample grid
     spec = case['xlim']
@@ -342,7 +346,7 @@ def strategy(draw, tier):
             'plot_only_result': draw(st.sampled_from([True, True, True, False])) if second else draw(st.booleans()),
             'interp': draw(st.booleans()), 'param': draw(st.sampled_from(['monotonicity', 'amp_consistency', 'period_consistency', 'amp_fraction', 'burst_fraction'])),
             'thresh': draw(st.sampled_from([0.0, 0.3, 0.5, 0.8, 1.0])), 'th_order': draw(st.sampled_from([0, 0, 1, 2])),
-            'second_drawing': second}
+            'second_drawing': second, 'row_subset': draw(st.one_of(st.just(0), st.just(0), st.integers(1, 4094)))}
 
 
 PARTS = [Part('figures', check, strategy=strategy, budget={'quick': 640, 'thorough': 12000}, shards={'quick': 16, 'thorough': 16},
